@@ -65,11 +65,15 @@ pub use make_assignment_local::*;
 pub use method_def::*;
 pub use no_local_function::*;
 pub use remove_assertions::*;
+#[cfg(feature = "verif")]
+pub(crate) use remove_assertions::verif_assert_matches;
 pub use remove_attribute::*;
 pub use remove_comments::*;
 pub use remove_compound_assign::*;
 pub use remove_continue::*;
 pub use remove_debug_profiling::*;
+#[cfg(feature = "verif")]
+pub(crate) use remove_debug_profiling::verif_should_remove_call as verif_debug_profiling_matches;
 pub use remove_floor_division::*;
 pub use remove_if_expression::*;
 #[cfg(feature = "verif")]
